@@ -1,6 +1,7 @@
 //! C15 — serde round trip returns the original Rust value, also across the wire.
 
 use crate::engine::{fp, replay_entry, CaseInfo, ReplayEntry, Run, Verdict};
+use erltf::{Atom, OwnedTerm};
 use erltf_serde::{from_bytes, from_term, to_bytes, to_term, ElixirStruct};
 use proptest::prelude::*;
 use serde::de::DeserializeOwned;
@@ -200,7 +201,26 @@ pub fn oracle(c: &Case) -> Verdict {
         Case::UnitStruct(v) => trip(v, true),
         Case::Shape(v) => trip(v, true),
         Case::Deep(v) => trip(v, true),
-        Case::Elixir(v) => trip(&v.real(), true),
+        Case::Elixir(v) => trip(&v.real(), true).and_then(|()| {
+            // a derived struct mapping refuses another struct's term and a term with a field missing
+            let term = to_term(&v.real()).map_err(|e| ("to-term-error".to_string(), e.to_string()))?;
+            let OwnedTerm::Map(m) = &term else { return Err(("derived-struct-not-a-map".into(), format!("{:?}", term))) };
+            let tag = OwnedTerm::Atom(Atom::new("__struct__"));
+            if m.get(&tag) != Some(&OwnedTerm::Atom(Atom::new("Elixir.Verif.User"))) {
+                return Err(("derived-struct-tag-wrong".into(), format!("{:?}", m.get(&tag))));
+            }
+            let mut other = m.clone();
+            other.insert(tag.clone(), OwnedTerm::Atom(Atom::new("Elixir.Verif.SomeoneElse")));
+            if let Ok(u) = from_term::<ElixirUser>(&OwnedTerm::Map(other)) {
+                return Err(("foreign-struct-accepted".into(), format!("a term tagged Elixir.Verif.SomeoneElse was read as {:?}", u)));
+            }
+            let mut short = m.clone();
+            short.remove(&OwnedTerm::Atom(Atom::new("score")));
+            if let Ok(u) = from_term::<ElixirUser>(&OwnedTerm::Map(short)) {
+                return Err(("field-fabricated".into(), format!("a term without the field score was read as {:?}", u)));
+            }
+            Ok(())
+        }),
         Case::ElixirWrap(u, s, n) => trip(&ElixirWrap { user: u.real(), shape: s.clone(), counts: n.clone() }, true),
     };
     match r {
